@@ -609,7 +609,8 @@ def check_writecap(tier):
                 "sequences up to length 5 over the measured facts; one executable program per non-owning container kind plus a sanctioned-path twin",
         "samples": [{"fact": k, "compiles": v} for k, v in list(facts.items())[:6]] + [{"program": k, **v} for k, v in programs.items()],
         "states": sum(r["distinct"] for r in tlc_runs), "transitions": sum(r["generated"] for r in tlc_runs),
-        "facts_measured": facts, "tlc_runs": tlc_runs, "recipes_found_by_tlc": recipes, "programs": programs,
+        "facts_measured": facts, "tlc_runs": tlc_runs, "recipes_found_by_tlc": recipes, "exploit_programs": programs,
+        "programs": len(programs) + len(WRITE_FACT_PROBES), "disagreements_checked": len(programs),
         "traces_validated_against_impl": len(programs),
         "checker_cmd": "rustc probes ; tlc WriteCap.tla (constants = measured facts) ; rustc + run exploit programs",
     }
